@@ -126,6 +126,22 @@ def run(tier):
             vb = enc.enc_cat(build(va, 'ctor').clear_features(rng.choice(['dcl', 'X', 'nb', 'b', 'em'])))
         ev_eq(va, vb)
         ev_xor(va, vb)
+        if system == 'ja':
+            # a twin carrying the same feature values under another key name in one atom
+            def rename(c, st):
+                if c['k'] == 'F':
+                    return gen.fun(rename(c['l'], st), c['s'], rename(c['r'], st))
+                if c['f'].get('t') == 'T' and not st[0] and rng.random() < 0.6:
+                    st[0] = True
+                    kv = [dict(p) for p in c['f']['kv']]
+                    j = rng.randrange(len(kv))
+                    kv[j]['k'] = rng.choice([k for k in ('case', 'mod', 'form', 'fin', 'kind') if k not in [p['k'] for p in kv]])
+                    return gen.atom(c['b'], {'t': 'T', 'kv': kv})
+                return c
+            vt = rename(va, [False])
+            ev_eq(va, vt)
+            ev_xor(va, vt)
+            ev_clr(vt, tuple(enc.show_cat(x)[len(x['b']) + 1:-1] for x in gen._atoms_of(va, []) if x['f'].get('t') == 'T')[:2])
         names = tuple(rng.sample(['dcl', 'X', 'nb', 'em', 'b', 'adj', 'mod=nm,form=base,fin=f', 'case=ga,mod=nm,fin=f'], rng.randint(0, 3)))
         ev_clr(va, names)
         if i % 4 == 0:
